@@ -711,3 +711,6 @@ def check(ctx):
                    "C18": "signal masks of the spawning thread (none, SIGPIPE, SIGTERM, SIGCHLD, all, real-time, random subsets) x parent SIGPIPE ignored/default",
                    }[prop] + "; non-trivial = at least 6 logged system calls; distinct by specification"
     cov["samples"] = [{"spec": c["spec"], "result": " ".join(c["res"]), "log_head": c["log"][:12]} for c in cases[:2] + cases[-1:]]
+    if prop == "C08" and not ctx.replay:
+        import pipeline
+        pipeline.extra_c08(ctx)
